@@ -8,6 +8,7 @@ mod c08;
 mod c09;
 mod c10;
 mod c11;
+mod c18;
 mod c19;
 mod cmp;
 mod obs;
@@ -32,6 +33,7 @@ fn main() {
         "c09chain" => c09::chain_child(args.get(2).and_then(|s| s.parse().ok()).unwrap_or(1)),
         "c10" => c10::run(tier),
         "c11" => c11::run(tier),
+        "c18" => c18::run(tier),
         "c10child" => c10::child(tier),
         "c10cmp" => c10::compare(tier),
         "c19" => c19::run(tier),
